@@ -15,6 +15,7 @@ import (
 	"fmt"
 	"golang.org/x/tools/go/ssa"
 	"os"
+	"os/exec"
 	"path/filepath"
 	"sort"
 	"strconv"
@@ -435,6 +436,44 @@ func cmdCheck(args []string) {
 		"assumptions": assumptions,
 		"wall_s":      time.Since(t0).Seconds(),
 		"violations":  violations,
+	}
+	if *tier == "thorough" && *only == "" {
+		// (1) replay the recorded findings of this property on the real code: a repaired one
+		// must pass (it is reported again if it ever returns), an open one is expected to fail
+		var reps []any
+		for _, fe := range loadFindingIndex() {
+			serves := false
+			for _, p := range fe.Property {
+				if p == *id {
+					serves = true
+				}
+			}
+			if !serves {
+				continue
+			}
+			out, passed := runFindingReplay(fe)
+			res := "fails"
+			if passed {
+				res = "passes"
+			}
+			reps = append(reps, map[string]any{"finding": fe.ID, "status": fe.Status, "test": fe.Test, "result": res})
+			switch {
+			case fe.Status == "fixed" && !passed:
+				violations++
+				fmt.Printf("VIOLATION property=%s replay=%s finding=%s (a repaired defect is back: the replay test fails on the real code)\n%s\n", *id, filepath.Join(root, fe.File), fe.ID, tailLines(out, 6))
+			case fe.Status != "fixed" && passed:
+				fmt.Printf("NOTE: the replay of open finding %s passes now\n", fe.ID)
+			}
+		}
+		// (2) the must-fail corpus of this property: every deliberately broken body has to fail a
+		// named obligation (guards against vacuous contracts and engine regressions)
+		caught, total, msgs := runMutants(*id, "", false)
+		for _, m := range msgs {
+			fmt.Println("SELFTEST-MISS:", m)
+		}
+		ev["thorough"] = map[string]any{"finding_replays": reps, "mutants_total": total, "mutants_caught": caught, "mutants_missed": msgs}
+		ev["violations"] = violations
+		fmt.Printf("%s thorough extras: %d finding replays, %d/%d seeded mutants caught\n", *id, len(reps), caught, total)
 	}
 	if len(run.engErrs) > 0 {
 		for _, e := range run.engErrs {
@@ -994,4 +1033,39 @@ func defaultPathOf(v ssa.Value) (root, path string) {
 		}
 		return "", ""
 	}
+}
+
+type findingEntry struct {
+	ID       string   `json:"id"`
+	Property []string `json:"property"`
+	Status   string   `json:"status"`
+	Module   string   `json:"module"`
+	Pkg      string   `json:"pkg"`
+	Harness  string   `json:"harness"`
+	File     string   `json:"file"`
+	Test     string   `json:"test"`
+}
+
+func loadFindingIndex() []findingEntry {
+	var out []findingEntry
+	b, err := os.ReadFile(filepath.Join(verifRoot(), "findings", "index.json"))
+	if err == nil {
+		_ = json.Unmarshal(b, &out)
+	}
+	return out
+}
+
+// runFindingReplay injects the replay test of a finding into the real package (go test -overlay).
+func runFindingReplay(fe findingEntry) (string, bool) {
+	cmd := exec.Command(filepath.Join(verifRoot(), "run_finding.sh"), fe.Module, fe.Pkg, fe.Harness, filepath.Join(verifRoot(), fe.File), fe.Test)
+	out, err := cmd.CombinedOutput()
+	return string(out), err == nil && strings.Contains(string(out), "ok ")
+}
+
+func tailLines(s string, n int) string {
+	ls := strings.Split(strings.TrimRight(s, "\n"), "\n")
+	if len(ls) > n {
+		ls = ls[len(ls)-n:]
+	}
+	return strings.Join(ls, "\n")
 }
